@@ -10,7 +10,8 @@ EXPLANATION = (
     "schedules, drops the browse cache, and nothing is sent after SearchStopped; who-may-hold a listener Sender; "
     "(d) timeout ordering in the run loop and deadline guard on rescheduling (F5 on the deadline lookup); "
     "(e) cleanup covers both search maps and the rerun queue; (f) cache-only browse never queries.  Decides these structural clauses, not event order over "
-    "histories.")
+    "histories."
+    " (h) EVERY path that ends a search on its own (stop handler, resolver timeout) purges the pending reruns inside the same per-search iteration; (i) stop forgets cached addresses under the lower-cased key.")
 UNDECIDED = ["order of events across packets/histories", "absence of queries 'long after the stop' as a trace property",
              "other callers of send_query* taking a cache-only listener (value-level)"]
 
